@@ -28,4 +28,10 @@ impl Matcher {
         self.slab
             .verif_alloc_extents(AsciiChar::cast(haystack), needle_len)
     }
+
+    /// Overwrites the matcher's scratch memory with `byte`. A matcher only ever reads scratch
+    /// cells the current call has written, so this must not change any result.
+    pub fn verif_fill_scratch(&mut self, byte: u8) {
+        self.slab.verif_fill(byte)
+    }
 }
